@@ -139,7 +139,10 @@ func setupOrigin(sc Scenario, trickle time.Duration) *env {
 	seq++
 	id := seq
 	seqMu.Unlock()
-	e := &env{origin: world.NewOrigin(), name: fmt.Sprintf("c12-%d-%d", os.Getpid(), id), wd: world.NewDir("c12")}
+	// the work_dir path contains glob / regexp meta characters: the startup sweep must not interpret the path
+	wd := filepath.Join(world.NewDir("c12"), []string{"crl[prod]", "work", "w*d?", "crl_x_tmp"}[id%4])
+	os.MkdirAll(wd, 0o755)
+	e := &env{origin: world.NewOrigin(), name: fmt.Sprintf("c12-%d-%d", os.Getpid(), id), wd: wd}
 	e.pki, e.sib = pkiFor(e.name)
 	com := commonSerials(sc.N)
 	oldL := e.pki.CRL(1, append([]string{oldOnly}, com...)...)
@@ -260,6 +263,17 @@ func (e *env) restartAndJudge(c Case, cleanNames map[string]bool) (string, error
 	state := fmt.Sprintf("old-only=%s new-only=%s common=%s last-common=%s", o.Kind, n.Kind, cm.Kind, last.Kind)
 	isOld := o.Kind == "revoked" && n.Kind == "ok" && cm.Kind == "revoked" && last.Kind == "revoked"
 	isNew := o.Kind == "ok" && n.Kind == "revoked" && cm.Kind == "revoked" && last.Kind == "revoked"
+	refreshable := func() error {
+		// a location that counts as loaded holds a COMPLETE accepted list, including what a refresh needs: with the origin
+		// healthy again a newer list must come into force
+		newest := e.pki.CRL(9, "0e", common0)
+		e.origin.Serve("/list.crl", newest)
+		ch.VerifForceUpdate()
+		if v := ask("0e"); v.Kind != "revoked" {
+			return fmt.Errorf("location counts as loaded after the restart but cannot be refreshed: after a refresh from a healthy origin the serial listed only in the newest list answers %v", v)
+		}
+		return nil
+	}
 	switch {
 	case c.Scenario.Kind == "firstload" && c.Scenario.Rejected:
 		return "", fmt.Errorf("location is treated as loaded after restart although the only list ever offered was rejected (%s)", state)
@@ -267,18 +281,18 @@ func (e *env) restartAndJudge(c Case, cleanNames map[string]bool) (string, error
 		if !isNew {
 			return "", fmt.Errorf("location is treated as loaded after restart but the data is not the complete accepted list (%s)", state)
 		}
-		return "loaded-new", nil
+		return "loaded-new", refreshable()
 	case c.Scenario.Rejected:
 		if !isOld {
 			return "", fmt.Errorf("after a crash during a REJECTED refresh the location is loaded with something else than the complete previous list (%s)", state)
 		}
-		return "loaded-old", nil
+		return "loaded-old", refreshable()
 	default:
 		if isOld {
-			return "loaded-old", nil
+			return "loaded-old", refreshable()
 		}
 		if isNew {
-			return "loaded-new", nil
+			return "loaded-new", refreshable()
 		}
 		return "", fmt.Errorf("location is treated as loaded after restart but the data is neither the complete old nor the complete new list (%s)", state)
 	}
@@ -310,8 +324,8 @@ func cleanNamesFor(sc Scenario) (map[string]bool, []string, error) {
 	}
 	e := setupOrigin(sc, 0)
 	defer e.origin.Close()
-	defer os.RemoveAll(e.wd)
-	rec := filepath.Join(filepath.Dir(e.wd), filepath.Base(e.wd)+"-sites.txt")
+	defer os.RemoveAll(filepath.Dir(e.wd))
+	rec := filepath.Join(filepath.Dir(e.wd), "sites.txt")
 	defer os.Remove(rec)
 	out, err := e.runChild(sc, -1, rec, 0)
 	if err != nil || !strings.Contains(out, "CHILD-DONE") {
@@ -353,7 +367,7 @@ func runCase(c Case, x *ev.Ctx) error {
 	}
 	e := setupOrigin(c.Scenario, trickle)
 	defer e.origin.Close()
-	defer os.RemoveAll(e.wd)
+	defer os.RemoveAll(filepath.Dir(e.wd))
 	var out string
 	if c.Timed {
 		out, err = e.runChild(c.Scenario, -1, "", time.Duration(c.DelayUS)*time.Microsecond)
@@ -389,7 +403,7 @@ func runCase(c Case, x *ev.Ctx) error {
 var spec = ev.Spec[Case]{
 	ID:  "C12",
 	Run: runCase,
-	Rule: "crash-point enumeration: scenarios {first load, refresh} x {accepted, rejected signature} x list sizes x DER/PEM on disk storage with signature mode verify. A recording run lists every hook site (each step of LevelDbStore.Update, repository stage/commit/swap points) and every store write (start / insert #i / ext-meta / signer / locations) the scenario passes; then for every index of that sequence (quick: per-entry insert points of larger lists thinned out) a child process re-runs the scenario and SIGKILLs itself at that site, so the work_dir left behind is the real crash image. The parent restarts a fresh checker on the image with the origin broken and strict mode on and judges: if the location is treated as loaded (unlisted probe accepted) then old-only/new-only/common/last-common probes must show exactly one complete accepted list (never the rejected one); 'not loaded' and a clean error are always acceptable; after restart the work_dir holds no crl_*_tmp and nothing a crash-free run does not leave either. A second phase adds parent-timed SIGKILLs at drawn delays while the origin trickles the body. Non-trivial: the child was really killed; distinct by (scenario, site index / delay bucket).",
+	Rule: "crash-point enumeration: scenarios {first load, refresh} x {accepted, rejected signature} x list sizes x DER/PEM on disk storage with signature mode verify. A recording run lists every hook site (each step of LevelDbStore.Update, repository stage/commit/swap points) and every store write (start / insert #i / ext-meta / signer / locations) the scenario passes; then for every index of that sequence (quick: per-entry insert points of larger lists thinned out) a child process re-runs the scenario and SIGKILLs itself at that site, so the work_dir left behind is the real crash image. The parent restarts a fresh checker on the image with the origin broken and strict mode on and judges: if the location is treated as loaded (unlisted probe accepted) then old-only/new-only/common/last-common probes must show exactly one complete accepted list (never the rejected one); 'not loaded' and a clean error are always acceptable; after restart the work_dir (whose path contains glob / regexp meta characters in three of four cases) holds no crl_*_tmp and nothing a crash-free run does not leave either; a location that counts as loaded can be refreshed from a healthy origin. A second phase adds parent-timed SIGKILLs at drawn delays while the origin trickles the body. Non-trivial: the child was really killed; distinct by (scenario, site index / delay bucket).",
 	Assumptions: []string{"process death, not power loss: the page cache survives (no fsync ordering is checked)"},
 }
 
